@@ -1778,7 +1778,7 @@ static XalanDOMString   s_staticSlashString(XalanMemMgrs::getDummyMemMgr());
 
 const XalanDOMChar      ElemNumber::s_atString[] =
 {
-    XalanUnicode::charAmpersand,
+    XalanUnicode::charCommercialAt,
     0
 };
 
